@@ -48,7 +48,10 @@ class FsModel:
     def apply(self, op):
         kind, p = op['kind'], op['path']
         mt, dmt = op.get('mt'), op.get('dmt')
-        if kind in ('write', 'write_via_rename'):
+        if kind == 'write_zip':
+            self._mkparents(p)
+            self.files[p] = [{'__zip__': op['members']}, mt]
+        elif kind in ('write', 'write_via_rename'):
             self._mkparents(p)
             self.files[p] = [op['content'], mt]
         elif kind == 'delete':
@@ -91,7 +94,10 @@ class FsModel:
     def init_ops(self):
         ops = []
         for p, (c, mt) in sorted(self.files.items()):
-            ops.append({'op': 'fs', 'kind': 'write', 'path': p, 'content': c, 'mt': mt})
+            if isinstance(c, dict):
+                ops.append({'op': 'fs', 'kind': 'write_zip', 'path': p, 'members': c['__zip__'], 'mt': mt})
+            else:
+                ops.append({'op': 'fs', 'kind': 'write', 'path': p, 'content': c, 'mt': mt})
         for d, mt in sorted(self.dirs.items(), key=lambda kv: -len(kv[0])):
             if d and not any(f.startswith(d + '/') for f in self.files):
                 ops.append({'op': 'fs', 'kind': 'mkdir', 'path': d, 'mt': mt})
@@ -308,6 +314,16 @@ class Gen:
             self.fs('write', self.path_of(dotted, 'package'), content=src, mt=st, dmt=self.dstamp(st))
             m.update(kind='package', ver=ver, shape=shape)
 
+    def rezip(self):
+        """the archive on the search path is rebuilt with a changed member (member timestamps
+        inside the archive stay fixed, as in reproducible builds; the archive file gets a new stamp)"""
+        src, ver, shape = self.source('zm', new_shape=self.rng.random() < 0.5)
+        self.mods['zm'].update(ver=ver, shape=shape)
+        st = self.stamp()
+        self.fs('write_zip', 'vendor.zip', members={'zm.py': {'text': src}}, mt=st)
+        if self.rng.random() < 0.5:
+            self.ops.append({'op': 'host_restart'})
+
     def toggle_stub(self, dotted):
         m = self.mods[dotted]
         if m['kind'] != 'module':
@@ -361,6 +377,10 @@ class Gen:
         subs = [d for d in self.mods if '.' in d]
         free_top = [n for n in world.TOP + world.PKG + self.lib_names if n not in self.mods]
         r = rng.random()
+        allmods = [d for d in self.mods if d != 'zm']
+        if 'zm' in self.mods and r < 0.08:
+            return self.rezip()
+        tops = [d for d in tops if d != 'zm']
         shadowed = [d for d in tops if self.mods[d].get('shadowed')]
         plain = [d for d in tops if self.mods[d]['kind'] == 'module' and not self.mods[d].get('stub')]
         if r < 0.05 and (shadowed or plain):
@@ -368,18 +388,18 @@ class Gen:
                 self.unshadow(rng.choice(shadowed))
             else:
                 self.shadow(rng.choice(plain))
-        elif r < 0.10 and self.mods:
-            self.burst(rng.choice(list(self.mods)))
-        elif r < 0.22 and self.mods:
-            self.overwrite(rng.choice(list(self.mods)), same_size=rng.random() < 0.6)
+        elif r < 0.10 and allmods:
+            self.burst(rng.choice(allmods))
+        elif r < 0.22 and allmods:
+            self.overwrite(rng.choice(allmods), same_size=rng.random() < 0.6)
         elif r < 0.34 and free_top:
             n = rng.choice(free_top)
             kind = rng.choice(['module', 'module', 'package', 'namespace'])
             self.create(n, kind)
             if kind != 'module' and rng.random() < 0.7:
                 self.create(n + '.' + rng.choice(world.SUB))
-        elif r < 0.44 and self.mods:
-            self.delete(rng.choice(list(self.mods)))
+        elif r < 0.44 and allmods:
+            self.delete(rng.choice(allmods))
         elif r < 0.52 and [t for t in tops if t not in self.lib_names] and \
                 [t for t in free_top if t not in self.lib_names]:
             self.rename(rng.choice([t for t in tops if t not in self.lib_names]),
@@ -390,8 +410,8 @@ class Gen:
             self.to_module(rng.choice([d for d in tops if self.mods[d]['kind'] == 'package']))
         elif r < 0.75 and [d for d in tops if self.mods[d]['kind'] in ('package', 'namespace')]:
             self.toggle_init(rng.choice([d for d in tops if self.mods[d]['kind'] in ('package', 'namespace')]))
-        elif r < 0.82 and [d for d in self.mods if self.mods[d]['kind'] == 'module']:
-            self.toggle_stub(rng.choice([d for d in self.mods if self.mods[d]['kind'] == 'module']))
+        elif r < 0.82 and [d for d in allmods if self.mods[d]['kind'] == 'module']:
+            self.toggle_stub(rng.choice([d for d in allmods if self.mods[d]['kind'] == 'module']))
         elif r < 0.88 and [d for d in tops if self.mods[d]['kind'] in ('package', 'namespace')]:
             p = rng.choice([d for d in tops if self.mods[d]['kind'] in ('package', 'namespace')])
             s = p + '.' + rng.choice(world.SUB)
@@ -399,10 +419,10 @@ class Gen:
                 self.overwrite(s, same_size=rng.random() < 0.5)
             else:
                 self.create(s)
-        elif r < 0.94 and self.mods:
-            self.older_rename_onto(rng.choice(list(self.mods)))
-        elif self.mods:
-            self.touch(rng.choice(list(self.mods)))
+        elif r < 0.94 and allmods:
+            self.older_rename_onto(rng.choice(allmods))
+        elif allmods:
+            self.touch(rng.choice(allmods))
 
     def query(self):
         rng = self.rng
@@ -485,6 +505,13 @@ def gen_case(seed, tier, i):
         g.lib_names = ['la', 'lb']
         g.project = {'path': '.', 'added_sys_path': ['lib']}
         g.all_names.update(g.lib_names)
+    if rng.random() < 0.25:
+        # a module that lives inside a zip archive on the project's search path
+        src, ver, shape = g.source('zm')
+        model.apply({'kind': 'write_zip', 'path': 'vendor.zip', 'members': {'zm.py': {'text': src}}, 'mt': st0 + 20 * SEC})
+        g.mods['zm'] = {'kind': 'zipmodule', 'ver': ver, 'shape': shape, 'stub': False}
+        g.all_names.add('zm')
+        g.project = dict(g.project, added_sys_path=list(g.project.get('added_sys_path') or []) + ['vendor.zip'])
     # names the buffers may refer to before they exist
     for n in rng.sample(world.TOP + world.PKG, 2):
         g.all_names.add(n)
@@ -548,6 +575,17 @@ def witness_cases():
         {'op': 'advance', 'ns': 50 * MS}, q, {'op': 'advance', 'ns': 100 * MS},
         {'op': 'fs', 'kind': 'write', 'path': 'ma.py', 'content': v3, 'mt': T0 + 250 * MS},
         {'op': 'advance', 'ns': 50 * MS}, q]}
+    # a module inside an archive, rebuilt between two host processes that share the pickle directory
+    z1 = world.gen_module_source(rng, 'zm', 1, shape=shape)
+    z2 = world.gen_module_source(rng, 'zm', 2, shape=world.gen_shape(rng))
+    zinit = init + [{'op': 'fs', 'kind': 'write_zip', 'path': 'vendor.zip', 'mt': st0, 'members': {'zm.py': {'text': z1}}}]
+    zcode = 'import zm\nzm.func(1)\nzm.Klass().method\n'
+    zq = {'op': 'query', 'code': zcode, 'path': None, 'project': {'path': '.', 'added_sys_path': ['vendor.zip']},
+          'probes': [{'m': 'get_signatures', 'l': 2, 'c': 8}, {'m': 'complete', 'l': 3, 'c': 11}, {'m': 'infer', 'l': 1, 'c': 8}]}
+    yield {'id': 'w:zip-rebuilt-between-processes', 'init': zinit, 'policy': 'witness', 'hashseed': 0, 'ops': [
+        zq, {'op': 'advance', 'ns': 5 * SEC},
+        {'op': 'fs', 'kind': 'write_zip', 'path': 'vendor.zip', 'mt': T0 + 5 * SEC, 'members': {'zm.py': {'text': z2}}},
+        {'op': 'advance', 'ns': SEC}, {'op': 'host_restart'}, zq]}
     for name, dmt in (('create-dir-mtime-kept', 'keep'), ('create-dir-mtime-bumped', T0 + SEC)):
         yield {'id': 'w:' + name, 'init': init, 'policy': 'witness', 'hashseed': 0, 'ops': [
             q, {'op': 'advance', 'ns': 2 * SEC},
@@ -732,8 +770,16 @@ def judge(case):
     restarted = False
     sim = 0
     sigs = set()
+    proc_started = {}       # proc -> index of the first op it executed in its current life
+    last_zip_write = None
     for i, (op, ev) in enumerate(zip(ops, events)):
         k = op['op']
+        if k == 'host_restart':
+            proc_started.pop(op.get('proc', 0), None)
+        elif k in ('query', 'project_search', 'gc'):
+            proc_started.setdefault(op.get('proc', 0), i)
+        if k == 'fs' and op['kind'] == 'write_zip':
+            last_zip_write = i
         if k == 'fs':
             model.apply(op)
             mutated_since_query = True
@@ -781,8 +827,12 @@ def judge(case):
                     if builtin_representative_differs(p, sort_result(a), sort_result(b)):
                         stats['c16_representative_excluded'] += 1      # listed C16 finding, not staleness
                         continue
+                    blob = json.dumps(a) + json.dumps(b)
+                    zipcache = (last_zip_write is not None and
+                                proc_started.get(op.get('proc', 0), i) < last_zip_write and
+                                ('vendor.zip' in blob or 'zm_v' in blob))
                     ta, tb = set(TAG.findall(json.dumps(a))), set(TAG.findall(json.dumps(b)))
-                    problems.append(('stale:%s' % p['m'], {
+                    problems.append(('stale:%s%s' % (p['m'], '@zipcache' if zipcache else ''), {
                         'op': i, 'probe': p, 'stale_names': sorted(ta - tb)[:6], 'missed_names': sorted(tb - ta)[:6],
                         'got': _short(a), 'oracle': _short(b), 'cache': cache,
                         'after_restart': restarted}))
@@ -796,7 +846,8 @@ def judge(case):
     st['monotone'] = is_monotone(case)
     if problems:
         return {'verdict': 'violation', 'sig': problems[0][0] + ('' if st['monotone'] else '|nonmonotone'),
-                'detail': {'problems': [[s, d] for s, d in problems[:3]], 'n': len(problems),
+                'detail': {'problems': [[s, d] for s, d in sorted(problems, key=lambda q: q[0].endswith('@zipcache'))[:12]], 'n': len(problems),
+                           'all_sigs': sorted({q[0] for q in problems}),
                            'monotone': st['monotone'], 'policy': case.get('policy')}, 'stats': st}
     return {'verdict': 'ok', 'stats': st}
 
@@ -853,9 +904,16 @@ class C09(base.Engine):
 
     def known_match(self, case, result, known):
         """non-monotone histories only: counterfactual replay decides"""
+        ks = {k['id']: k for k in known['findings'] if k.get('property') == 'C09'}
+        probs = (result.get('detail') or {}).get('problems') or []
+        n = (result.get('detail') or {}).get('n', 0)
+        sigs = (result.get('detail') or {}).get('all_sigs') or [p[0] for p in probs]
+        if sigs and all(x.endswith('@zipcache') for x in sigs):
+            return ks.get('C09-zip-archive-rebuilt')
+        if any(x.endswith('@zipcache') for x in sigs):
+            return None     # mixed with something else: report
         if (result.get('detail') or {}).get('monotone', True):
             return None
-        ks = {k['id']: k for k in known['findings'] if k.get('property') == 'C09'}
         if not ks:
             return None
         cache = getattr(self, '_cf_cache', None)
